@@ -25,14 +25,11 @@ def _energy(ret, voltage, period):
 
 
 # ---------------------------------------------------------------------------- the spec function of C14
-def two_stage_F(cap, charge, pmax, tr, pilot, voltage, period):
+def F_core(s, r, R, tr, h):
     """Closed-form solution of the documented two-stage law, written from the docstring /
-    property text (not from the code):  ds/dt = min(r, R (1-s)/(1-tr)).
+    property text (not from the code):  ds/dt = min(r, R (1-s)/(1-tr)),  r = requested SoC per hour
+    (already capped at R), R = SoC per hour at maximum power, tr = transition SoC, h = hours.
     Returns a list of (case-name, case-condition, value-of-new-SoC)."""
-    s = charge / cap
-    h = period / 60
-    r = Min(pilot * voltage / 1000, pmax) / cap          # SoC per hour requested
-    R = pmax / cap                                       # SoC per hour at full power
     s_star = 1 - (r / R) * (1 - tr)                      # SoC where the taper reaches r
     kappa = R / (1 - tr)
     t_joint = (s_star - s) / r                           # hours until the joint (r > 0)
@@ -41,6 +38,10 @@ def two_stage_F(cap, charge, pmax, tr, pilot, voltage, period):
         ("crossing", And(s < s_star, h > t_joint), 1 - (1 - s_star) * Exp(-kappa * (h - t_joint))),
         ("taper", s >= s_star, 1 - (1 - s) * Exp(-kappa * h)),
     ]
+
+
+def two_stage_F(cap, charge, pmax, tr, pilot, voltage, period):
+    return F_core(charge / cap, Min(pilot * voltage / 1000, pmax) / cap, pmax / cap, tr, period / 60)
 
 
 # ---------------------------------------------------------------------------- common clauses
@@ -161,3 +162,68 @@ REG.contract(
     ensures=IFACE + [L2_INV, C("C14.law", lambda old, new, ret: [
         (t, Implies(Eq(old.self.charge_calculation, "continuous"), g)) for t, g in law_clauses(old, new, ret)])],
 )
+
+
+# ---------------------------------------------------------------------------- C14 lemmas over the spec function F only
+def _F_lemmas():
+    """Pure facts about F_core (the documented law).  Since `_charge` is proved equal to F on every path
+    (C14.law.*), these transfer to the real code: T = T/2 twice (stated for any split h1+h2), monotone in the
+    duration, monotone in the pilot, F(s,0)=s.  exp(a+b)=exp(a)exp(b) is supplied as ground axiom instances."""
+    import z3
+    from pyvc.dsl import EXP
+    s, r, R, tr, h1, h2, r2 = z3.Reals("Fs Fr FR Ftr Fh1 Fh2 Fr2")
+    dom = [s >= 0, s <= 1, r > 0, r <= R, tr >= 0, tr < 1, h1 >= 0, h2 >= 0]
+    out = []
+    kappa = R / (1 - tr)
+    s_star = 1 - (r / R) * (1 - tr)
+    tj = (s_star - s) / r
+    # ---- semigroup: F(F(s,h1),h2) = F(s,h1+h2), by (case of step 1, case of step 2, case of the whole)
+    for n1, c1, v1 in F_core(s, r, R, tr, h1):
+        for n2, c2, v2 in F_core(v1, r, R, tr, h2):
+            for n3, c3, v3 in F_core(s, r, R, tr, h1 + h2):
+                a, b = -kappa * (h1 - tj), -kappa * h2
+                facts = [EXP(a + b) == EXP(a) * EXP(b), EXP(-kappa * h1 + b) == EXP(-kappa * h1) * EXP(b)]
+                out.append((f"semigroup/{n1}.{n2}={n3}", dom + [c1, c2, c3] + facts, v2 == v3))
+    # ---- the three cases are exhaustive and exclusive (so the case split above loses nothing)
+    cs = [c for _, c, _ in F_core(s, r, R, tr, h1)]
+    out.append(("cases_exhaustive", dom, z3.Or(*cs)))
+    out.append(("cases_exclusive", dom, z3.And(z3.Not(z3.And(cs[0], cs[1])), z3.Not(z3.And(cs[0], cs[2])), z3.Not(z3.And(cs[1], cs[2])))))
+    # ---- F(s,0) = s ; F stays in [s,1]
+    for n1, c1, v1 in F_core(s, r, R, tr, h1):
+        out.append((f"zero_duration/{n1}", dom + [c1, h1 == 0], v1 == s))
+        out.append((f"range/{n1}", dom + [c1], z3.And(v1 >= s, v1 <= 1)))
+    # ---- monotone in the duration
+    for n1, c1, v1 in F_core(s, r, R, tr, h1):
+        for n2, c2, v2 in F_core(s, r, R, tr, h2):
+            out.append((f"mono_T/{n1}<={n2}", dom + [c1, c2, h1 <= h2], v1 <= v2))
+    return out
+
+
+REG.lemma("C14.F_semigroup_monotone", _F_lemmas, props=("C14",))
+
+
+def _F_mono_pilot():
+    """delivered energy is non-decreasing in the pilot: r <= r2 => F_r(s,h) <= F_r2(s,h)."""
+    import z3
+    from pyvc.dsl import EXP
+    s, r, R, tr, h, r2 = z3.Reals("Gs Gr GR Gtr Gh Gr2")
+    dom = [s >= 0, s <= 1, r > 0, r <= r2, r2 <= R, tr >= 0, tr < 1, h >= 0]
+    kappa = R / (1 - tr)
+    out = []
+    for n1, c1, v1 in F_core(s, r, R, tr, h):
+        for n2, c2, v2 in F_core(s, r2, R, tr, h):
+            s2 = 1 - (r2 / R) * (1 - tr)
+            u = h - (s2 - s) / r2
+            s1 = 1 - (r / R) * (1 - tr)
+            u1 = h - (s1 - s) / r
+            facts = [EXP(-kappa * u) * EXP(kappa * u) == 1, EXP(-kappa * u1) * EXP(kappa * u1) == 1,
+                     EXP(-kappa * u) == EXP(-kappa * u1) * EXP(-kappa * (u - u1)),
+                     EXP(-kappa * (u - u1)) * EXP(kappa * (u - u1)) == 1,
+                     EXP(-kappa * h) * EXP(kappa * h) == 1,
+                     EXP(-kappa * u1) == EXP(-kappa * h) * EXP(kappa * (h - u1)),
+                     EXP(-kappa * u) == EXP(-kappa * h) * EXP(kappa * (h - u))]
+            out.append((f"mono_pilot/{n1}<={n2}", dom + [c1, c2] + facts, v1 <= v2))
+    return out
+
+
+REG.lemma("C14.F_monotone_in_pilot", _F_mono_pilot, props=("C14",))
